@@ -908,6 +908,31 @@ var c04NumBoundary = []string{
 	"123456789012345678", "0.30000000000000004", "0.30000000000000002", "5.0e-1", "-18.9E-7", "-18.9E+27", "125*10^12", "125*^12", "0129.8",
 }
 
+// long mantissas: 16..21 significant digits around 2^52, 2^53, 2^54, 2^63 and 10^19, the decimal
+// point in every position, plain, negative and with an exponent part - a conversion that rounds
+// twice (digits -> integer -> scaled) is wrong for some of them, a correctly rounding one for none
+func init() {
+	bases := []string{"4503599627370497", "9007199254740993", "9007199254740995", "18014398509481985", "18014398509481987",
+		"9223372036854775807", "9223372036854775809", "9999999999999999999", "1000000000000000001", "5000000000000000001",
+		"9405090880450125", "79453623373871975", "30091186058528706", "1234567890123456789"}
+	tails := []string{"", "1", "5", "9", "49", "51"}
+	seen := map[string]bool{}
+	for _, b := range bases {
+		for _, t := range tails {
+			d := b + t
+			for p := 1; p < len(d); p++ {
+				lit := d[:p] + "." + d[p:]
+				for _, form := range []string{lit, "-" + lit, lit + "e+5", lit + "*10^-3"} {
+					if !seen[form] {
+						seen[form] = true
+						c04NumBoundary = append(c04NumBoundary, form)
+					}
+				}
+			}
+		}
+	}
+}
+
 var c04NumAlphaWide = []string{"0", "1", "2", "3", "4", "5", "6", "7", "8", "9", "+", "-", ".", "e", "E", "*", "^", "x", "%"}
 
 // pass A: glyphs chosen to collide
@@ -1012,7 +1037,7 @@ func init() {
 		ID:    "C04",
 		Level: "exploration",
 		Rule: "E1 exhaustive, four parts. (1) all 0x110000 code points (plus -1, 0x110000, MaxInt32, MinInt32): syntax.IdInRange == linear scan of the idRange table parsed out of pkg/syntax/id_range.go at run time, the table strictly ascending and non-overlapping; each code point alone through zh.NextToken: outside the table never an identifier token, a letter/digit inside the table exactly one identifier token, the 8 one-character keywords their keyword. " +
-			"(2) every string of length <= L over the input classes {0 1 7 + - . e E * ^ x} (quick 8, thorough 9), in thorough also every string of length 10 over the recogniser's own nine classes {0 1 7 + . e * ^ x}, every string <= L' over all ten digits and + - . e E * ^ x % (quick 5, thorough 6) and a fixed list of rounding-boundary spellings, through exec.MatchIDType, against a recogniser written from chapter 5 ([+-]?D+(.D+)?([eE][+-]D+|*(10)?^[+-]?D+)?): number (value == exactly rounded double via big.Rat) / name / must-reject / dont_care. " +
+			"(2) every string of length <= L over the input classes {0 1 7 + - . e E * ^ x} (quick 8, thorough 9), in thorough also every string of length 10 over the recogniser's own nine classes {0 1 7 + . e * ^ x}, every string <= L' over all ten digits and + - . e E * ^ x % (quick 5, thorough 6) and a fixed list of rounding-boundary spellings (43 hand-picked ones and some 6 000 generated long mantissas: 16..21 digits around 2^52, 2^53, 2^54, 2^63, 10^19 with the decimal point in every position, plain, negative, with exponent), through exec.MatchIDType, against a recogniser written from chapter 5 ([+-]?D+(.D+)?([eE][+-]D+|*(10)?^[+-]?D+)?): number (value == exactly rounded double via big.Rat) / name / must-reject / dont_care. " +
 			"(3) every string of length <= L over three alphabets (A: 不大小等于为如果何再否则以的 甲 x 1 space backtick + / *, quick <= 5, thorough <= 6 plus length 7 without x 1 否 则; B, quick <= 6, thorough <= 8: + - * / space ， “甲” 甲 1 为 .; C, quick <= 4, thorough <= 5: all glyphs of all 34 keywords and 甲): every token (type, literal, start, end) of zh.NextToken up to EOF or error against a reference tokenizer written from chapter 1 (longest keyword at each position left to right, identifier runs, backtick identifiers, + - * / operators only before space/punctuation/quote, * / cannot start and / cannot end an identifier); an error on both sides is agreement. " +
 			"Enumerations are odometers (injective), so all cases are distinct; non-trivial = code point inside the table / string that starts like a number / reference token stream containing a keyword, operator, backtick identifier or a prescribed error.",
 		Assumptions: []string{
